@@ -204,6 +204,7 @@ macro_rules! cat_cfg {
                             let m = built_or_return!(ctx, mode, b, &what);
                             let what = format!("contiguous _fast {}", what);
                             let t = contiguous_checks::<Pr, P>(&m, n, src, ctx, prop, &what, exhaustive_up_to)?;
+                            lookup_conversions!($lookup, P, m, t, src, exhaustive_up_to, kusize, mode);
                             if mode == 5 {
                                 // lazily evaluated model built by the same-named constructor
                                 // (the lazy decoder must also invert the *eager* encoder: data encoded
@@ -264,6 +265,7 @@ macro_rules! cat_cfg {
                             let m = built_or_return!(ctx, mode, b, &what);
                             let what = format!("contiguous _perfect {}", what);
                             let t = contiguous_checks::<Pr, P>(&m, n, src, ctx, prop, &what, exhaustive_up_to)?;
+                            lookup_conversions!($lookup, P, m, t, src, exhaustive_up_to, kusize, mode);
                             if mode == 5 {
                                 let syms: Vec<usize> = (0..n).collect();
                                 let (ne, nd) = if use_f32 {
@@ -442,6 +444,7 @@ macro_rules! cat_cfg {
                             }
                             let m = built_or_return!(ctx, mode, b, &what);
                             let t = contiguous_checks::<Pr, P>(&m, n, src, ctx, prop, &format!("contiguous {}", what), exhaustive_up_to)?;
+                            lookup_conversions!($lookup, P, m, t, src, exhaustive_up_to, kusize, mode);
                             if !hostile {
                                 let exp: Vec<u64> = full.clone();
                                 let got: Vec<u64> = t.rows.iter().map(|r| r.2).collect();
@@ -709,6 +712,24 @@ macro_rules! lookup_vs_searched {
         }
     }};
     (false, $Pr:ty, $P:expr, $t:expr, $tab32:expr, $tab64:expr, $norm32:expr, $norm64:expr, $use_f32:expr, $kind:ident, $src:expr, $ex:expr, $n:expr, $kusize:expr) => {{}};
+}
+
+/// C05: conversions of a searched contiguous model into lookup models
+macro_rules! lookup_conversions {
+    (true, $P:expr, $m:expr, $t:expr, $src:expr, $ex:expr, $kusize:expr, $mode:expr) => {{
+        if $mode == 5 {
+            let qs = quantiles(&$t, $src, $ex, 32);
+            let l = $m.to_lookup_decoder_model();
+            tables_equal(&$t, &table_from_iter::<_, $P>(&l, $kusize), "searched model", "to_lookup_decoder_model")?;
+            check_decoder::<_, $P>(&l, &$t, &qs, $kusize, "C05", "to_lookup_decoder_model")?;
+            let g = $m.to_generic_lookup_decoder_model();
+            tables_equal(&$t, &table_from_iter::<_, $P>(&g, $kusize), "searched model", "to_generic_lookup_decoder_model")?;
+            check_decoder::<_, $P>(&g, &$t, &qs, $kusize, "C05", "to_generic_lookup_decoder_model")?;
+            let back = l.as_contiguous_categorical();
+            tables_equal(&$t, &table_from_encoder::<_, $P>(&back, 0..$t.rows.len(), $kusize, "C05", "lookup.as_contiguous_categorical")?, "searched model", "lookup as_contiguous_categorical")?;
+        }
+    }};
+    (false, $P:expr, $m:expr, $t:expr, $src:expr, $ex:expr, $kusize:expr, $mode:expr) => {{}};
 }
 
 macro_rules! lookup_ctor {
